@@ -255,7 +255,7 @@ PROPERTIES = {
         'units': [io.ProgramOptionsSave],
         'lemmas': [],
         'level': 'other',
-        'claim': 'writer logic only: every option registered in the constructor (name and value type as resolved by clang) that is not in the writer own skip list has a value type the writer can write; alpha0 is replaced by 0 only when a synchrotron frequency is given; '
+        'claim': 'writer logic only: every option registered in the constructor (name and value type as resolved by clang) that is not in the writer own skip list has a value type the writer can write; alpha0 is replaced by 0 only when a synchrotron frequency is given; every legacy alias the writer skips has its value copied by parse() into the stored value of the canonical option bound to the same member; entries are left out by name only (or, if by their defaulted flag, no stored value is modified in place); '
                  'the parent config name is written as a comment',
         'assumptions': ['boost::program_options parses what the writer prints (text round trip of numbers, repeated keys for vector options) — not modelled', 'AST pattern extraction of the registration table (59 options found on the pinned tree; fewer than 40 aborts)'],
         'uncovered': ['floating-point text formatting precision', 'options given in a parent config file (stored by program_options like any other)', 'that rerunning reproduces the results'],
